@@ -225,6 +225,9 @@ def strat_euler(ctx):
         "dt_form": st.sampled_from(["bare", "str"]),
         "dt_sys": gen.us_mild,
         "with_kinetics": st.booleans(),
+        # every cell holds exactly the same AMOUNT of a species (bit-equal floats): equal amounts in cells of different
+        # volume are different concentrations, so there is a flux; None = the drawn state
+        "uniform_amount": st.one_of(st.none(), st.none(), st.sampled_from([10.0, 1.0, 250.0, 0.5])),
     })
 
 
@@ -248,10 +251,13 @@ def pick_dt(x, dx, sc):
 
 def check_euler(ctx, c):
     spec = c["sys"]
+    if c.get("uniform_amount") is not None:
+        n_entries = len(spec["species"]) * gen.space_size(spec["space"])
+        spec = dict(spec, state={"values": [gen.fs(F(c["uniform_amount"]))] * n_entries, "units": "molecule"})
     model = Model(spec)
     x = model.state()
     dx, sc = model.derivative(x)
-    ctx.note(c, nontrivial(spec, model, dx), classes_of(spec, model, dx) + ["route:" + c["route"]])
+    ctx.note(c, nontrivial(spec, model, dx), classes_of(spec, model, dx) + ["route:" + c["route"]] + (["uniform-amounts"] if c.get("uniform_amount") is not None else []))
     system = sut_call("build_system", B.build_system, spec, c["route"])
     from vlib.ratelaw import tame_dt
     dt = min(pick_dt(x, dx, sc), F(tame_dt(model, frac=0.05)))
